@@ -51,6 +51,7 @@ type EthGen struct {
 	pruning bool
 	maxH    uint64
 	sameRoots bool
+	viaTx     bool // deliver updates as signed MsgUpdateClient transactions (determinism stream)
 	recorded  []*ethtypes.EthHeader
 }
 
@@ -335,14 +336,27 @@ func (g *EthGen) submit(c *tibctesting.TestChain, h ethtypes.Header, sealOk bool
 	cctx, write := ctx.CacheContext()
 	hdr := h
 	tok := g.token(h, sealOk)
-	err := func() (err error) {
-		defer func() {
-			if r := recover(); r != nil {
-				err = fmt.Errorf("panic: %v", r)
-			}
+	var err error
+	if g.viaTx {
+		msg, merr := clienttypes.NewMsgUpdateClient(g.name, &hdr, c.SenderAccounts[0].SenderAccount.GetAddress())
+		if merr != nil {
+			err = merr
+		} else if r := w.Tx(c, 0, msg); r.Code != 0 {
+			err = fmt.Errorf("tx failed: %s/%d", r.Codespace, r.Code)
+		}
+		ctx = c.GetContext()
+		write = func() {}
+		expect = 0
+	} else {
+		err = func() (err error) {
+			defer func() {
+				if r := recover(); r != nil {
+					err = fmt.Errorf("panic: %v", r)
+				}
+			}()
+			return ck.UpdateClient(cctx, g.name, &hdr)
 		}()
-		return ck.UpdateClient(cctx, g.name, &hdr)
-	}()
+	}
 	res := "ok"
 	if err != nil {
 		res = "fail"
@@ -359,7 +373,9 @@ func (g *EthGen) submit(c *tibctesting.TestChain, h ethtypes.Header, sealOk bool
 		if csI.(*ethtypes.ClientState).Header.Hash() != h.Hash() {
 			w.hit("C18", "accepted-header-is-not-the-latest-header "+label)
 		}
-		g.oneChain(c, ctx, label)
+		if !g.viaTx {
+			g.oneChain(c, ctx, label)
+		}
 	}
 	if expect > 0 && res != "ok" {
 		w.hit("C18", "valid-header-refused "+label)
@@ -490,6 +506,9 @@ func (g *EthGen) setup(caseIdx int, period uint64) bool {
 		w.hit("C18", "cannot-create-client "+err.Error())
 		return false
 	}
+	if g.viaTx {
+		ck.RegisterRelayers(ctx, g.name, []string{c.SenderAccounts[0].SenderAccount.GetAddress().String()})
+	}
 	root := &ethNode{h: gen}
 	g.nodes[gen.Hash()] = root
 	g.order = []*ethNode{root}
@@ -524,6 +543,17 @@ func (g *EthGen) Run(nOps int, caseIdx int) {
 	}
 
 	for i := 0; i < nOps; i++ {
+		g.Step(i)
+	}
+}
+
+// Step: perturbed candidates on a chosen stored parent, then the valid child
+func (g *EthGen) Step(i int) {
+	c := g.w.Chains[0]
+	if g.viaTx {
+		g.now = uint64(g.w.Coord.CurrentTime.Unix())
+	}
+	{
 		// pick the parent: the latest header, or any stored header
 		pn := g.latest
 		if g.r.Chance(40) {
@@ -546,7 +576,7 @@ func (g *EthGen) Run(nOps int, caseIdx int) {
 		if g.latest.h.Time+g.period < g.now {
 			g.now = g.latest.h.Time + g.period
 			if p.Time+vs.dt > g.now+15 {
-				continue
+				return
 			}
 		}
 		where := g.depthLabel(pn)
